@@ -266,6 +266,14 @@ func c17Name(c *core.Ctx, k *core.Case) {
 		ln, buf, ext, cs, ci, spare = int(e.GetLen()), e.Buffer, e.GetExt(), e.GetCodingScheme(), e.GetAddCI(), e.GetNumberOfSpareBitsInLastOctet()
 	}
 	c.Eval(1)
+	if _, owned := ownedTwice(func() []byte {
+		if k.I[0] == 0 {
+			return nasConvert.FullNetworkNameToNas(name).Buffer
+		}
+		return nasConvert.ShortNetworkNameToNas(name).Buffer
+	}); owned != "" {
+		c.Fail(k, "result-not-owned:NetworkNameToNas", owned)
+	}
 	c.Hold(k, "nasConvert.NetworkNameToNas", buf)
 	which := []string{"Full", "Short"}[k.I[0]]
 	wantText := (7*n + 7) / 8
